@@ -15,6 +15,7 @@ func tierEvery(c *Check, quick, thorough int) int {
 
 func runC05(c *Check) error {
 	c.Assumptions = append(c.Assumptions, stdAssumptions...)
+	c.TriviaEmpty = true
 	every := tierEvery(c, 4, 1)
 	rich := c.Tier == "thorough"
 	for _, ver := range []string{"7.4", "5.6"} {
@@ -29,8 +30,9 @@ func runC05(c *Check) error {
 		}
 		c.ExploreNeeds(needs, nil)
 	}
-	c.Bounds = append(c.Bounds,
-		"program shapes: the committed corpus (snippets of the repository's own tests + test.php lines) under 7.4 and 5.6",
+	c.ExploreNeeds(longShapes("H_C05", 3_000_000), nil)
+	c.Bounds = append(c.Bounds, longBound,
+		"program shapes: the committed corpus (snippets of the repository's own tests + test.php lines + grammar sentences) under 7.4 and 5.6",
 		bound("S4: every %d-th inter-token gap of every snippet replaced by symbolic trivia (white space 1..2 bytes of every newline style, /*..*/, #..\\n%s)", every, map[bool]string{true: ", //..\\r\\n, /** */, 3-byte white space", false: ""}[rich]),
 		"positions are concrete on each path; the solver enumerates the trivia variants around each shape")
 	return nil
